@@ -395,6 +395,20 @@ def agraph_level(ctx, rep):
             key = "C01:F1-error-path-shape" if (isinstance(out, np.ndarray) and np.isnan(out).all()) else "C01:agraph-shape"
             rep.violate(f"evaluate_equation_at returned shape {getattr(out, 'shape', None)}, expected ({M}, 1)", key, case)
             continue
+        # every data row is evaluated on its own: row i of the result is what the equation gives for row i alone, whatever the
+        # other rows contain (an overflow or a division by zero elsewhere must not leak)
+        if M > 1:
+            with warnings.catch_warnings():
+                warnings.simplefilter("ignore")
+                single = [ag.evaluate_equation_at(x[i:i + 1]) for i in range(M)]
+            rep.count("row_independence_checks")
+            bad_rows = [i for i in range(M) if not (single[i].shape == (1, 1) and (f2b(float(single[i][0, 0])) == f2b(float(out[i, 0]))
+                                                    or (math.isnan(single[i][0, 0]) and math.isnan(out[i, 0]))))]
+            if bad_rows:
+                i = bad_rows[0]
+                rep.violate(f"row {i} of the result is {out[i, 0]!r} when evaluated with the other rows but {float(single[i][0, 0])!r} on its own "
+                            f"(x[{i}] = {x[i].tolist()})", "C01:rows-not-independent", case)
+                continue
         # agreement with an independent reduction + backend evaluation, and irrelevance of unused rows
         used = G.utilized(genome)
         if not all(used):
